@@ -37,7 +37,10 @@ func (c *Context) Set(key string, value interface{}) {
 // Value from the context, or it's parent's context if one exists.
 func (c *Context) Value(key interface{}) interface{} {
 	if s, ok := key.(string); ok {
-		if v, ok := c.data[s]; ok {
+		c.moot.Lock()
+		v, ok := c.data[s]
+		c.moot.Unlock()
+		if ok {
 			return v
 		}
 		if c.outer != nil {
@@ -63,9 +66,11 @@ func (c *Context) export() map[string]interface{} {
 			m[k] = v
 		}
 	}
+	c.moot.Lock()
 	for k, v := range c.data {
 		m[k] = v
 	}
+	c.moot.Unlock()
 
 	return m
 }
@@ -100,7 +105,10 @@ func NewContextWith(data map[string]interface{}) *Context {
 // helper's name, even nil, is the user's choice.
 func (c *Context) isSet(key string) bool {
 	for cc := c; cc != nil; cc = cc.outer {
-		if _, ok := cc.data[key]; ok {
+		cc.moot.Lock()
+		_, ok := cc.data[key]
+		cc.moot.Unlock()
+		if ok {
 			return true
 		}
 	}
